@@ -47,13 +47,13 @@ def text_tie(rep, label, quick=(250, 250, 200), thorough=(6000, 6000, 4000), lin
 
 def run_c02(rep):
     n, ops = sizes(rep, (320, 14), (5000, 60))
-    families.play_family(rep, n, ops, features=dict(one_time=0.6, block_choices=0.6, join=0.4, conds=0.8),
+    families.play_family(rep, n, ops, features=dict(one_time=0.6, block_choices=0.6, join=0.4, conds=0.8, block_counters=0.8),
                          weights=dict(bad=12, choose=50, undo=8, redo=6), oracle_names=["oracle_c02"],
                          known_classes=known_classes("C02"), label="c02")
     # join passages re-entered through jumps inside blocks (section progress must restart)
     n2, ops2 = sizes(rep, (160, 24), (2000, 60))
     families.play_family(rep, n2, ops2, features=dict(join=0.9, block_jumps=0.9, conds=0.9, top_jumps=0.1, params=0.1,
-                                                       stmt_faults=0.02, faults=0.05),
+                                                       stmt_faults=0.02, faults=0.05, block_counters=0.8, block_choices=0.6),
                          weights=dict(bad=4, choose=75, undo=3, redo=2, goto=6, read=4, save=1, load=1, fresh=1),
                          oracle_names=["oracle_c02"], known_classes=known_classes("C02"), label="c02-join")
     # parameterised passages whose parameters shadow globals: conditions are judged with the parameters (recorded by the
@@ -62,8 +62,38 @@ def run_c02(rep):
     families.play_family(rep, n3, ops3, features=dict(params=0.85, shadow=0.7, probes=1.0, one_time=0.6, conds=0.8, block_jumps=0.5,
                                                        top_jumps=0.2, block_choices=0.5, hooks=0.6, hook_early=0.7, param_conds=0.5),
                          weights=dict(bad=4, choose=70, undo=8, redo=3, goto=8, read=4, save=1, load=1, fresh=1),
-                         oracle_names=["oracle_c02"], known_classes=known_classes("C02") | known_classes("C07"), label="c02-params")
+                         oracle_names=["oracle_c02", "oracle_c07"], known_classes=known_classes("C02") | known_classes("C07"), label="c02-params")
     compile_tie(rep, "c02-compile", dict(one_time=0.6, block_choices=0.7, join=0.5, conds=0.8))
+    c02_sessions(rep)
+
+
+C02_SESSIONS = [
+    # fixed sessions judged by the same oracle as the generated ones: one-time choices whose text holds colons (written out or
+    # produced by interpolation), taken, then saved and loaded (same engine / a fresh one), undone and redone
+    (":: Start\n~ h = 12\nhub\n* [Ask: \"Who?\"] -> Answer\n* [Check (12:30)] -> Answer\n* [a:b:c] -> Answer\n* [plain] -> Answer\n+ [wait] -> Start\n\n:: Answer\nanswer\n+ [back] -> Start\n",
+     [{"op": "choose", "i": 0}, {"op": "choose", "i": 0}, {"op": "save"}, {"op": "load", "slot": 0}, {"op": "choose", "i": 0}, {"op": "choose", "i": 0},
+      {"op": "save"}, {"op": "fresh_load", "slot": 1}, {"op": "choose", "i": 0}, {"op": "choose", "i": 0}, {"op": "fresh_load", "slot": 0}, {"op": "choose", "i": 3},
+      {"op": "undo"}, {"op": "choose", "i": 1}, {"op": "choose", "i": 0}, {"op": "save"}, {"op": "load", "slot": 2}]),
+    (":: Start\nhub\n* [Time: now] -> Start\n* [Time: later] -> Start\n+ [stay] -> Start\n",
+     [{"op": "choose", "i": 0}, {"op": "save"}, {"op": "choose", "i": 0}, {"op": "load", "slot": 0}, {"op": "choose", "i": 1}, {"op": "fresh_load", "slot": 0}, {"op": "choose", "i": 0}]),
+]
+
+
+def c02_sessions(rep):
+    n = 0
+    for src, ops in C02_SESSIONS:
+        c = corr_play.run_fixed(src, ops, case_id="c02-session")
+        n += 1
+        if "compile_error" in c or c["real"].get("status") != "ok":
+            rep.violations.append({"cls": None, "family": "c02-sessions", "what": "session does not run: " + str(c.get("compile_error") or c["real"])[:200], "source": src, "ops": ops})
+            continue
+        for f in oracles.oracle_c02(c):
+            if f.get("cls") in known_classes("C02"):
+                rep.known_hits[f["cls"]] = rep.known_hits.get(f["cls"], 0) + 1
+            else:
+                rep.violations.append(dict(f, family="c02-sessions", source=src, ops=ops, variant="main"))
+    rep.coverage.setdefault("families", {})["c02-sessions"] = {"cases": n}
+    rep.coverage["evaluations"] = rep.coverage.get("evaluations", 0) + n
 
 
 def run_c03(rep):
@@ -75,6 +105,7 @@ def run_c03(rep):
     # reads never consume anything the story holds (one-shot iterators, ranges, sets, deques kept in variables): real code only
     import fam_reads
     fam_reads.reads_invisible(rep, sizes(rep, 25, 400), "C03")
+    fam_reads.once_sessions(rep, sizes(rep, 30, 500))
 
 
 def run_c04(rep):
@@ -203,9 +234,9 @@ def c10_sessions(rep):
 def run_c10(rep):
     n, ops = sizes(rep, (400, 20), (6000, 60))
     families.play_family(rep, n, ops, features=dict(join=0.95, block_jumps=0.5, conds=0.7, one_time=0.5, hooks=0.3,
-                                                    params=0.15, stmt_faults=0.03, faults=0.08),
+                                                    params=0.15, stmt_faults=0.03, faults=0.08, block_counters=0.8, block_choices=0.7),
                          weights=dict(choose=70, goto=6, undo=7, redo=5, read=5, bad=3, save=1, load=1, fresh=1),
-                         oracle_names=["oracle_c10"], known_classes=known_classes("C10"), label="c10")
+                         oracle_names=["oracle_c10", "oracle_c02"], known_classes=known_classes("C10") | known_classes("C02"), label="c10")
     compile_tie(rep, "c10-compile", dict(join=0.95, block_jumps=0.5, conds=0.7, one_time=0.5, hooks=0.3))
     c10_sessions(rep)
 
